@@ -22,6 +22,7 @@ class Norm:
         # sign_odd: treat sign(-u) as NOT sign(u).  True for every u != 0 and false at u = 0, so a Norm built with this flag decides
         # equalities only AWAY from the zeros of the sign-tested quantities; used by symmetry rules that state that restriction.
         self.sign_odd = sign_odd
+        self.ind_ids = set() # ids of indicator atoms [c] (idempotent: [c]^2 = [c])
         self.atoms = {}      # canonical key -> id
         self.atom_desc = []  # id -> key
         self.memo = {}
@@ -66,16 +67,32 @@ class Norm:
                     r.pop(m, None)
         return r
 
-    @staticmethod
-    def mono_mul(m1, m2):
+    def mono_mul(self, m1, m2):
         if not m1:
             return m2
         if not m2:
             return m1
         d = dict(m1)
+        ind = self.ind_ids
         for a, e in m2:
-            d[a] = d.get(a, 0) + e
+            if a in ind:
+                d[a] = 1                       # [c]^2 = [c]
+            else:
+                d[a] = d.get(a, 0) + e
         return tuple(sorted(d.items()))
+
+    def indicator(self, ckey):
+        """polynomial of the indicator [c] of a canonical condition key; [not c] = 1 - [c]"""
+        if ckey == ("true",):
+            return self.const(1)
+        if ckey == ("false",):
+            return {}
+        if ckey[0] == "not":
+            return self.add(self.const(1), self.indicator(ckey[1]), -1)
+        pl = self.atom_poly(("ind", ckey))
+        (m, _), = pl.items()
+        self.ind_ids.add(m[0][0])
+        return pl
 
     def scale(self, a, c):
         c %= self.p
@@ -121,16 +138,10 @@ class Norm:
             elif self.pkey(a) == self.pkey(b):
                 r = a
             else:
-                if c[0] == "not":
-                    c, a, b = c[1], b, a
-                # ite(c, -x, x) and ite(c, x, -x) share the shape  x * ite(c,-1,1): factor to make `abs`-like
-                # selections canonical regardless of how the branches were written
-                ka, kb = self.pkey(a), self.pkey(b)
-                if self.pkey(self.scale(a, -1)) == kb:
-                    sgn = self.atom_poly(("ite", c, self.pkey(self.const(1)), self.pkey(self.const(-1))))
-                    r = self.mul(sgn, a)
-                else:
-                    r = self.atom_poly(("ite", c, ka, kb))
+                # ite(c, a, b) = b + [c] * (a - b) with an idempotent indicator atom [c]: every regrouping of a selection
+                # (x * ite(c, 1, r) vs ite(c, x, x*r), ite(c, -x, x) vs x * ite(c, -1, 1), nested selections on one condition)
+                # has the same normal form, and (1 - 2[c])^2 = 1 comes out of [c]^2 = [c]
+                r = self.add(b, self.mul(self.indicator(c), self.add(a, b, -1)))
         elif op == "isqrt_v":
             r = self.isqrt_v(self.poly(t.args[0]), self.poly(t.args[1]))
         elif op == "of_int":
@@ -325,7 +336,7 @@ def reduce_te_curve(N, poly, xid, yid, a_coeff, d_coeff):
                 # x^2 y^2 = (a x^2 + y^2 - 1) / d
                 repl = {((xid, 2),): a_coeff % p * dinv % p, ((yid, 2),): dinv, (): (-dinv) % p}
                 for m2, c2 in repl.items():
-                    mm = Norm.mono_mul(rest, m2)
+                    mm = N.mono_mul(rest, m2)
                     v = (out.get(mm, 0) + c * c2) % p
                     if v:
                         out[mm] = v
